@@ -113,6 +113,7 @@ def check_w1(case):
         try:
             reactor = br.BatchReactor(entries, cache_enabled=case["cache"] is not None, cache_maxsize=case["cache"] or 32768, enable_logging=False)
             rules1 = make_rules()
+            rules1 = rules1 + rules1[:1]  # the same rule object may occur twice (concatenated rule libraries)
             out1 = [r[f"syn_{'bw' if inv else 'fw'}"] for r in reactor.fit(rules1, invert=inv)]
             exp1 = expected_stub(entries, rules1, inv)
             del rules1  # the rule objects of the first call may die before the second call
